@@ -7,7 +7,6 @@ use crate::{
     corpus::{mode_name, Corpus, MODES},
     ctx::{hex, Ctx, Part},
     refspec::{limit, GenOpts, TextMode},
-    rng::Rng,
     sess::{run_read_case, ReadCase, ReadOutcome},
     transport::{ref_frames, runtime, Ev, Impl, RAct, ReadResult, WAct},
 };
@@ -131,11 +130,11 @@ pub fn run(ctx: &mut Ctx) -> (&'static str, String, bool) {
             let rt = runtime();
             let _g = rt.enter();
             let mut p = Part::new();
-            if miri && (subt as u64) % nshards != shard {
+            if miri && ((subt as u64) % nshards != shard || subt >= 32) {
                 return p;
             }
             for reqi in 0u32..256 {
-                if miri && reqi % 16 != 0 && reqi != 1 {
+                if miri && ![0, 1, 255].contains(&reqi) {
                     continue;
                 }
                 for compressed in MODES {
